@@ -25,7 +25,9 @@ RULE = ("(1) random workloads (<= 5 jobs, <= 2 in-memory tokens, duplicates, fai
         "event with the Lean model; non-trivial = at least one death with a job process alive or a marker present at that moment; "
         "(2) real experiments: 3 small DAGs (chain, fork with token, token at capacity) x phases (before the first launch, while a job runs, between "
         "dependent jobs, while a token is held, inside prepare() after params.json / after the script before chmod / before the spawn, inside aio_run after the spawn, "
-        "inside aio_run after the pid file was opened) x signals (SIGKILL, SIGTERM, SIGINT) x restart before/after the surviving job ended; "
+        "inside aio_run after the pid file was opened) x signals (SIGKILL, SIGTERM, SIGINT) x restart before/after the surviving job ended; plus 2 consecutive kills "
+        "(run 1 killed while a job runs, run 2 adopts and is killed while it still runs / right after it ended, run 3 must finish; the restart engine of (1) has any "
+        "number of deaths, the real matrix samples two); a restarted experiment process that raises instead of running is the monitor failure restart-crashes; "
         "distinct = hash of the case")
 HANG_KEY = "second-run-hangs:orphan-token-at-capacity"
 PIDFILE_KEY = "second-run-hangs:partial-pid-file"
@@ -164,7 +166,104 @@ def real_cases(ctx, rng):
     for i, c in enumerate(allc):
         d = DAGS[c["dag"]]
         cases.append(dict(c, id=f"real{i}", jobs=d["jobs"], token_total=d["token_total"], delay=rng.choice([0.0, 0.0, 0.05, 0.2])))
+    return cases + multikill_cases(ctx, rng)
+
+
+KILL_PAIRS = [["SIGTERM", "SIGKILL"], ["SIGKILL", "SIGTERM"], ["SIGTERM", "SIGTERM"], ["SIGKILL", "SIGKILL"]]
+
+
+def multikill_cases(ctx, rng):
+    """two consecutive kills: run 1 killed while the first job runs, run 2 (which adopts) killed at phase2, run 3 must finish"""
+    allc = []
+    for dag in DAGS:
+        for phase2 in ("running", "between"):
+            if phase2 == "between" and not any(j["deps"] for j in DAGS[dag]["jobs"]):
+                continue
+            for pair in KILL_PAIRS:
+                allc.append({"dag": dag, "phase2": phase2, "signals": pair})
+    if ctx.quick():
+        r = ctx.seed
+        allc = [{"dag": "chain", "phase2": "between", "signals": KILL_PAIRS[r % 4]},
+                {"dag": "chain", "phase2": "running", "signals": KILL_PAIRS[(r + 1) % 4]},
+                {"dag": "token-capacity", "phase2": "running", "signals": KILL_PAIRS[(r + 2) % 4]}]
+    cases = []
+    for i, c in enumerate(allc):
+        d = DAGS[c["dag"]]
+        cases.append(dict(c, id=f"kills{i}", kills=2, phase="2-kills:" + c["phase2"], signal="+".join(c["signals"]), finish_before_restart=False,
+                          jobs=d["jobs"], token_total=d["token_total"], delay=rng.choice([0.0, 0.05, 0.2])))
     return cases
+
+
+def crash_key(err):
+    """monitor key for an experiment process that raised instead of running (not: FailedExperiment of a failed job)"""
+    return "restart-crashes:" + (err or "?").split(":")[0].strip()
+
+
+def multikill_monitor(case, o):
+    """(key, what): the property after two consecutive kills, on the real observables"""
+    fails = []
+    tag = f"{case['dag']}/2 kills ({case['signal']}, second {case['phase2']})"
+    if o.get("error") or not o.get("rendezvous"):
+        return fails
+    xs = [j["x"] for j in case["jobs"]]
+    for r in (1, 2):
+        for x, alive in (o.get(f"alive_after_kill{r}") or {}).items():
+            if not alive:
+                fails.append((f"job-process-died-with-scheduler:{case['signals'][r - 1]}", f"{tag}: the process of job {x} did not survive kill {r} of the scheduler"))
+    # the restarted experiment process itself must not crash
+    f2 = o.get("final2")
+    if f2 is not None and f2.get("error") and not f2["error"].startswith("FailedExperiment"):
+        fails.append((crash_key(f2["error"]), f"{tag}: the second run of the experiment raised {f2['error']} instead of running ({o.get('stderr2', '')[-300:]})"))
+    elif not o.get("run2_alive_at_kill"):
+        fails.append(("restart-crashes:exit", f"{tag}: the second run ended by itself (rc {o.get('rc2')}) before it could be killed: {o.get('stderr2', '')[-300:]}"))
+    f3 = o.get("final3")
+    if f3 is not None and f3.get("error") and not f3["error"].startswith("FailedExperiment"):
+        fails.append((crash_key(f3["error"]), f"{tag}: the third run of the experiment raised {f3['error']} instead of running "
+                                              f"(jobs.bak at restart: {o.get('jobs_bak_at_restart')}; {o.get('stderr3', '')[-300:]})"))
+    elif o.get("rc3") == "timeout" or f3 is None:
+        fails.append((f"third-run-hangs:{case['phase2']}", f"{tag}: the third run does not finish (raised: {(o.get('tap') or {}).get('raised')}; log {o.get('log')})"))
+    elif f3.get("error") or f3.get("states") != ["DONE"] * len(xs):
+        fails.append((f"third-run-final-states:{case['phase2']}", f"{tag}: final states of the third run {f3.get('states')}, error {f3.get('error')}"))
+    complete = f3 is not None and not f3.get("error") and o.get("rc3") != "timeout"
+    for x in xs:
+        ivs = o["intervals"].get(str(x), [])
+        if len(ivs) > 1 or (complete and (len(ivs) != 1 or ivs[0][3] != "end")):
+            fails.append((f"body-not-exactly-once:2-kills:{case['phase2']}", f"{tag}: body of job {x} executed {len(ivs)} time(s) over the three runs: {[(iv[0], iv[3]) for iv in ivs]}"))
+    tap = o.get("tap") or {}
+    for x in o.get("live_at_restart2", []):
+        if x in tap.get("launched2", []):
+            fails.append((f"running-job-relaunched:2-kills:{case['phase2']}", f"{tag}: job {x} had a live process when run 2 started and was launched again"))
+    for x in o.get("live_at_restart", []):
+        if x in tap.get("launched3", []):
+            fails.append((f"running-job-relaunched:2-kills:{case['phase2']}", f"{tag}: job {x} had a live process when run 3 started and was launched again"))
+    if complete and o.get("token_files"):
+        fails.append((f"token-files-left:2-kills:{case['phase2']}", f"{tag}: token directory not empty after the third run: {o['token_files']}"))
+    return fails
+
+
+def multikill_model_lines(case, o):
+    """canonical schedule of the Lean model with the same two crash points"""
+    jobs = [{"ident": j["x"], "deps": [["j", d] for d in j["deps"]] + ([["t", 0, 1]] if j.get("token") and case.get("token_total") else []),
+             "code": 0, "marker": False} for j in case["jobs"]]
+    toks = [case["token_total"]] if case.get("token_total") else []
+    L = [{"op": "init", "tokens": toks, "jobs": jobs, "done": []}]
+    sub = [{"op": "ev", "e": ["sched", ["submit", i]]} for i in range(len(jobs))]
+    L += sub + [{"op": "ev", "e": ["quiesce", []]}, {"op": "ev", "e": ["crash"]}]   # run 1: everything launchable is in its body
+    # run 2: the first segments of aio_submit only (adoption); no helper thread completes, so nothing is launched: the
+    # model's tokens are in memory and were reset by the crash, the real token file of the adopted job still holds the token
+    L += sub + [{"op": "ev", "e": ["untilEnter", 999]}]
+    if case["phase2"] == "between":
+        tap = o.get("tap") or {}
+        launched2 = set(tap.get("launched2", [])) | (set(o.get("started_before_kill2", [])) - set(tap.get("launched1", [])))
+        later = [j["x"] for j in case["jobs"] if j["deps"] and j["x"] in launched2]
+        root = next(j["x"] for j in case["jobs"] if not j["deps"])
+        if root in o.get("live_at_restart", []):
+            L.append({"op": "ev", "e": ["proc", 0, True]})
+        else:
+            L.append({"op": "ev", "e": ["quiesce", [0]] if later else ["procRun", 0]})
+    L.append({"op": "ev", "e": ["crash"]})
+    L += sub + [{"op": "ev", "e": ["quiesce", None]}]                                # run 3
+    return L
 
 
 def real_monitor(case, o):
@@ -204,8 +303,11 @@ def real_monitor(case, o):
                 fails.append((f"body-not-exactly-once:{case['phase']}", f"{tag}: body of job {x} executed {len(ivs)} times over both runs: {[(iv[0], iv[3]) for iv in ivs]}"))
         return fails
     st = o["final2"].get("states")
-    if o["final2"].get("error") or st != ["DONE"] * len(xs):
-        fails.append((f"second-run-final-states:{case['phase']}", f"{tag}: final states of the second run {st}, error {o['final2'].get('error')}"))
+    err2 = o["final2"].get("error")
+    if err2 and not err2.startswith("FailedExperiment"):
+        fails.append((crash_key(err2), f"{tag}: the second run of the experiment raised {err2} instead of running ({o.get('stderr2', '')[-300:]})"))
+    elif err2 or st != ["DONE"] * len(xs):
+        fails.append((f"second-run-final-states:{case['phase']}", f"{tag}: final states of the second run {st}, error {err2}"))
     for x in xs:
         ivs = o["intervals"].get(str(x), [])
         if len(ivs) != 1 or ivs[0][3] != "end":
@@ -282,20 +384,33 @@ def real_part(ctx):
             errs += 1
             ctx.count("real_case_errors", (o.get("error") or "rendezvous not reached")[:60])
             continue
-        ctx.case({"real": {k: case[k] for k in ("dag", "phase", "signal", "finish_before_restart", "delay")},
-                  "log": o.get("log"), "final2": o.get("final2"), "tap": o.get("tap")}, True)
+        multi = case.get("kills", 1) >= 2
+        ctx.case({"real": {k: case.get(k) for k in ("dag", "phase", "signal", "finish_before_restart", "delay", "kills")},
+                  "log": o.get("log"), "final": o.get("final3" if multi else "final2"), "tap": o.get("tap")}, True)
         ctx.count("real_phase", case["phase"])
         ctx.count("real_signal", case["signal"])
         ctx.count("real_dag", case["dag"])
-        ctx.count("real_survivors", sum(1 for v in o.get("alive_after_kill", {}).values() if v))
-        ctx.count("real_adopted", len(o.get("tap", {}).get("adopted2", [])))
+        ctx.count("real_kills", case.get("kills", 1))
+        ctx.count("real_survivors", sum(1 for v in (o.get("alive_after_kill1") if multi else o.get("alive_after_kill", {})).values() if v))
+        ctx.count("real_adopted", len(o.get("tap", {}).get("adopted2", [])) + len(o.get("tap", {}).get("adopted3", [])))
         ctx.count("real_reaping", o.get("reaping"))
-        mf = real_monitor(case, o)
+        mf = multikill_monitor(case, o) if multi else real_monitor(case, o)
         for key, what in mf:
             ctx.monitor_fail(key, what, {"real": case})
-        if o.get("rc2") == "timeout" or o.get("final2") is None:
+        last_final = o.get("final3") if multi else o.get("final2")
+        if o.get("rc3" if multi else "rc2") == "timeout" or last_final is None or (last_final.get("error") and last_final.get("states") is None):
             continue  # nothing to compare: the run has no final result
-        ls = real_model_lines(case, o)
+        first = next((l[1] for l in (o.get("log") or []) if l[0] == "start"), None)
+        if case["dag"] == "token-capacity" and first == case["jobs"][1]["x"]:
+            # two symmetric jobs compete for one token: the model's canonical schedule serves job 0 first, so the job that
+            # got the token in the real run is listed first
+            case = dict(case, jobs=[case["jobs"][1], case["jobs"][0]])
+            if o.get("final3" if multi else "final2", {}).get("states"):
+                o = dict(o)
+                k = "final3" if multi else "final2"
+                o[k] = dict(o[k], states=list(reversed(o[k]["states"])))
+            ctx.count("real_token_winner", "second job")
+        ls = multikill_model_lines(case, o) if multi else real_model_lines(case, o)
         lines += ls
         owners.append((case, o, len(ls)))
     if errs > max(1, len(cases) // 3):
@@ -314,16 +429,17 @@ def real_part(ctx):
         xs = [j["x"] for j in case["jobs"]]
         model = {"final": last["futures"], "bodies": [d["bodies"] for d in last["dirs"]], "succ": [d["succ"] for d in last["dirs"]],
                  "adopted": sorted(x for x, a in zip(xs, last["adopted"]) if a)}
-        tapl = (o.get("tap") or {}).get("launched2")
+        multi = case.get("kills", 1) >= 2
+        tapl = (o.get("tap") or {}).get("launched3" if multi else "launched2")
         if tapl is not None and (o.get("tap") or {}).get("launched1") is not None and ((o.get("tap") or {}).get("launched1") or tapl):
             model["launched2"] = sorted(x for x, n in zip(xs, last["launches"]) if n > 0)
         survivors = sorted(o.get("live_at_restart", []))
-        real = {"final": (o["final2"] or {}).get("states"), "bodies": [len(o["intervals"].get(str(x), [])) for x in xs],
+        real = {"final": (o["final3" if multi else "final2"] or {}).get("states"), "bodies": [len(o["intervals"].get(str(x), [])) for x in xs],
                 "succ": [sum(1 for iv in o["intervals"].get(str(x), []) if iv[3] == "end") for x in xs],
                 "adopted": survivors}
         if "launched2" in model:
             real["launched2"] = sorted(tapl)
-        tapa = o.get("tap", {}).get("adopted2")
+        tapa = o.get("tap", {}).get("adopted3" if multi else "adopted2")
         if model != real:
             ctx.disagree({"real": case, "log": o.get("log"), "tap": o.get("tap")}, model, real,
                          "restart model (canonical schedule with the same crash point) and the real runs differ")
@@ -373,7 +489,7 @@ def _replay_case(ctx, c):
         return fails
     if "real" in c:
         o = run_worker_cases(ctx, "restart", [c["real"]], parallel=1, timeout=600)[0]
-        return real_monitor(c["real"], o)
+        return multikill_monitor(c["real"], o) if c["real"].get("kills", 1) >= 2 else real_monitor(c["real"], o)
     return []
 
 
